@@ -114,7 +114,8 @@ def prior_arm(loop):
 def r1(ctx):
     f = ctx.fn(f"{IMPL}.mcmc_step")
     R = ctx.R
-    defined = sorted(m for m in R.methods(IMPL) if m.startswith("_") and m.endswith("_step") and m != "mcmc_step")
+    spliced = {h.rsplit(".", 1)[1] for hs in R.inlined.values() for h in hs}       # new helpers spliced into their callers are not blocks
+    defined = sorted(m for m in R.methods(IMPL) if m.startswith("_") and m.endswith("_step") and m != "mcmc_step" and m not in spliced)
     seq = []
     cond = []
     par = enclosing_map(f.node)
@@ -133,25 +134,159 @@ def r1(ctx):
               f"sweep order is {seq}, tabled order is {SWEEP} (every later draw conditions on the earlier ones)")
 
 
-def vector_block(ctx, name):
+def _names(e):
+    return [x.id for x in ast.walk(e) if isinstance(x, ast.Name)]
+
+
+def _is_empty_placeholder(v):
+    return (isinstance(v, ast.List) and not v.elts) or "reshape(0" in U(v).replace(" ", "")
+
+
+def vector_roles(ctx, name):
+    """the locals of a vector block by ROLE, whatever they are called, read off the three places where the block's linear system is
+    used:  Q = (X^T X) prec,  mu_part = (X^T resid) prec,  Mu[I] += X @ P[i] - old.
+    For the two-position blocks the four stacks np.concatenate([a, b]) give the per-position roles by list position."""
     f, loop, i = block_loop(ctx, name)
-    P, bound, prior_src, kind = BLOCKS[name]
+    P = BLOCKS[name][0]
     A = all_assigns(loop)
-    two_pos = "idx1" in A
-    aux = aux_env(f)
+    sd = {k: v[0] for k, v in A.items() if len(v) == 1}
+    draws = [n for n in walk_own(loop) if isinstance(n, ast.Assign) and isinstance(n.value, ast.Call) and attr_tail(n.value) == "sample_mvn_from_precision"]
+    ctx.need(len(draws) == 1, f"{f.site()}: expected exactly one sample_mvn_from_precision draw, found {len(draws)}")
+    dc = draws[0].value
+    kw = kwargs(dc)
+    Qa = dc.args[0] if dc.args else kw.get("Q")
+    Ma = dc.args[1] if len(dc.args) > 1 else kw.get("mu_part")
+    ctx.need(isinstance(Qa, ast.Name) and isinstance(Ma, ast.Name), f"{f.site()}: the draw's precision / linear-term arguments are not plain locals: `{U(dc)}`")
+    Qn, Mn = Qa.id, Ma.id
+    Qd, Md = one(A, Qn, f), one(A, Mn, f)
+    upd = [n for n in walk_own(loop) if isinstance(n, ast.AugAssign) and U(n.target.value if isinstance(n.target, ast.Subscript) else n.target) == "self.Mu"]
+    votes = {}
+    R = {"f": f, "loop": loop, "i": i, "A": A, "sd": sd, "draw": draws[0], "Q": Qn, "mu": Mn, "Qdef": Qd, "mudef": Md, "upd": upd}
+
+    def env_without(*keep):
+        return {k: v for k, v in sd.items() if k not in keep and k not in (Qn, Mn)}
+    def closure(e):
+        """every local met while unfolding single definitions, at any depth"""
+        out, work = set(), list(_names(e))
+        while work:
+            n = work.pop()
+            if n in out or n not in A:
+                continue
+            out.add(n)
+            if n in sd:
+                work += _names(sd[n])
+        return sorted(out)
+    # anchor a: Q
+    for c in closure(Qd):
+        if c not in (Qn, Mn):
+            if NN(env_without(c)).n(Qd) == NN().n(parse_expr(f"({c}.transpose() @ {c}) * self.prec")):
+                votes.setdefault(c, []).append("Q")
+    # anchor b: mu_part
+    resid = None
+    cand_m = [x for x in closure(Md) if x not in (Qn, Mn)]
+    for c in cand_m:
+        for r in cand_m:
+            if r != c and NN(env_without(c, r)).n(Md) == NN().n(parse_expr(f"({c}.transpose() @ {r}) * self.prec")):
+                votes.setdefault(c, []).append("mu")
+                resid = r
+    # anchor c: the Mu update
+    old = None
+    if len(upd) == 1:
+        cand_u = sorted(x for x in set(_names(upd[0].value)) if x in A)
+        for c in cand_u:
+            for o in cand_u:
+                if o != c and NN(aux_env(f)).n(upd[0].value) == NN().n(parse_expr(f"{c} @ self.{P}[{i}] - {o}")):
+                    votes.setdefault(c, []).append("update")
+                    old = o
+    ctx.need(votes, f"{f.site()}: the design matrix of the block could not be identified (neither Q, mu_part nor the Mu update has the block form over a local)")
+    X = max(sorted(votes), key=lambda c: len(votes[c]))
+    R["X"] = X
+    if resid is None or "mu" not in votes.get(X, []):
+        tr = (f"{X}.transpose()", f"{X}.T", f"np.transpose({X})")
+        others = sorted({x for x in _names(Md) if x in A and x != X and not (x in sd and U(sd[x]).replace(" ", "") in tr) and not (x in sd and U(sd[x]) == "self.prec")})
+        ctx.need(len(others) == 1, f"{f.site()}: the working residual could not be identified in `{U(Md)}`")
+        resid = others[0]
+    R["resid"] = resid
+    if len(upd) == 1 and (old is None or "update" not in votes.get(X, [])):
+        others = [x for x in _names(upd[0].value) if x != X and x in A]
+        old = others[0] if len(set(others)) == 1 else None
+    I = U(upd[0].target.slice) if len(upd) == 1 and isinstance(upd[0].target, ast.Subscript) and isinstance(upd[0].target.slice, ast.Name) else None
+    R["X"], R["resid"] = X, resid
+    two = _stack(R, X) is not None
+    if I is None:
+        # no usable update statement: the row set is what the residual reads y through
+        if two:
+            c = [n for n in sd if n not in (X, resid) and (_stack(R, n) or []) and all(isinstance(e, ast.Name) and e.id in sd and U(sd[e.id]).startswith("np.array(self.dd") for e in _stack(R, n))]
+        else:
+            c = sorted({U(x.slice) for x in ast.walk(sd[resid]) if isinstance(x, ast.Subscript) and U(x.value) == "y" and isinstance(x.slice, ast.Name)}) if resid in sd else []
+        I = c[0] if len(c) == 1 else None
+    if old is None:
+        if two:
+            c = [n for n in sd if n not in (X, resid, I) and _stack(R, n) is not None]
+        else:
+            c = sorted({x for x in _names(sd[resid]) if x in A and x != I}) if resid in sd else []
+        old = c[0] if len(c) == 1 else None
+    R["old"] = old
+    R["I"] = I
+    return R
+
+
+def _stack(R, name):
+    """elements of  name = np.concatenate([a, b])  (through single-definition list locals), or None"""
+    A, sd = R["A"], R["sd"]
+    v = A.get(name)
+    if not v or len(v) != 1:
+        return None
+    v = v[0]
+    if not (isinstance(v, ast.Call) and U(v.func) in ("np.concatenate", "np.hstack", "np.vstack") and len(v.args) == 1):
+        return None
+    lst = v.args[0]
+    if isinstance(lst, ast.Name) and lst.id in sd:
+        lst = sd[lst.id]
+    if isinstance(lst, (ast.List, ast.Tuple)) and not any(isinstance(x, ast.Starred) for x in lst.elts):
+        return list(lst.elts)
+    return None
+
+
+def _data_def(R, e):
+    """(final name or None, defining expression) of a stack element: follows plain copies; of the definitions of a conditionally
+    bound local the one that is not the empty placeholder"""
+    A = R["A"]
+    seen = set()
+    nm = None
+    placeholder = False
+    while isinstance(e, ast.Name) and e.id in A and e.id not in seen:
+        seen.add(e.id)
+        defs = A[e.id]
+        data = [v for v in defs if not _is_empty_placeholder(v)]
+        placeholder = placeholder or len(data) < len(defs)
+        if len(data) != 1:
+            raise AnalysisError(f"{R['f'].site()}: `{e.id}` has {len(data)} non-placeholder definitions")
+        nm = e.id
+        e = data[0]
+    return nm, e, placeholder
+
+
+def vector_block(ctx, name):
+    R = vector_roles(ctx, name)
+    f, loop, i, A, sd = R["f"], R["loop"], R["i"], R["A"], R["sd"]
+    P, bound, prior_src, kind = BLOCKS[name]
+    X, resid, old, I, Qn, Mn = R["X"], R["resid"], R["old"], R["I"], R["Q"], R["mu"]
+    roles = {X, resid, old, I, Qn, Mn}
+    aux = {k: v for k, v in aux_env(f).items() if k not in roles}
+    helper = {k: v for k, v in sd.items() if k not in roles and k not in KEY_NAMES - {"Xt", "prec"}}
     # ---------- R4: sufficient statistics
-    env = {k: one(A, k, f) for k in ("Xt", "prec") if k in A}
-    N = NN(env)
-    mu = N.n(one(A, "mu_part", f))
-    Q = N.n(one(A, "Q", f))
+    N = NN({k: v for k, v in helper.items()})
+    mu = N.n(R["mudef"])
+    Q = N.n(R["Qdef"])
     Rn = NN()
-    want_mu = Rn.n(parse_expr("(X.transpose() @ resid) * self.prec"))
-    want_Q = Rn.n(parse_expr("(X.transpose() @ X) * self.prec"))
+    want_mu = Rn.n(parse_expr(f"({X}.transpose() @ {resid}) * self.prec"))
+    want_Q = Rn.n(parse_expr(f"({X}.transpose() @ {X}) * self.prec"))
     ctx.check("R4", f"{f.site()}::mu_part", mu == want_mu, "mu_part == prec * X^T resid",
-              f"mu_part is `{U(one(A, 'mu_part', f))}`: the linear term of the conditional must be prec * X^T r (a dropped or squared precision shifts the conditional mean)")
+              f"mu_part is `{U(R['mudef'])}`: the linear term of the conditional must be prec * X^T r (a dropped or squared precision shifts the conditional mean)")
     ctx.check("R4", f"{f.site()}::Q-data-term", Q == want_Q, "Q == prec * X^T X (before the prior)",
-              f"Q is `{U(one(A, 'Q', f))}`, not prec * X^T X")
-    diag = [n for n in walk_own(loop) if isinstance(n, ast.AugAssign) and isinstance(n.target, ast.Subscript) and U(n.target.value) == "Q"]
+              f"Q is `{U(R['Qdef'])}`, not prec * X^T X")
+    diag = [n for n in walk_own(loop) if isinstance(n, ast.AugAssign) and isinstance(n.target, ast.Subscript) and U(n.target.value) == Qn]
     ok = len(diag) == 1 and isinstance(diag[0].op, ast.Add)
     if ok:
         idx = diag[0].target.slice
@@ -159,65 +294,72 @@ def vector_block(ctx, name):
         ok = idx_src == "np.diag_indices(self.D)" and NN(aux).n(diag[0].value) == NN().n(parse_expr(prior_src.format(i=i)))
     ctx.check("R4", f"{f.site()}::prior-on-diagonal", ok, f"Q[diag] += {prior_src.format(i=i)}",
               f"the prior precision added to Q's diagonal is `{U(diag[0].value) if diag else None}`, expected `{prior_src.format(i=i)}` on np.diag_indices(self.D)")
-    draws = [n for n in walk_own(loop) if isinstance(n, ast.Assign) and isinstance(n.value, ast.Call) and attr_tail(n.value) == "sample_mvn_from_precision"]
-    ok = len(draws) == 1 and U(draws[0].targets[0]) == f"self.{P}[{i}]" and [U(a) for a in draws[0].value.args] == ["Q"] \
-        and {k: U(v) for k, v in kwargs(draws[0].value).items() if k != "rng"} == {"mu_part": "mu_part"}
+    dr = R["draw"]
+    ok = U(dr.targets[0]) == f"self.{P}[{i}]" and [U(a) for a in dr.value.args] == [Qn] \
+        and {k: U(v) for k, v in kwargs(dr.value).items() if k != "rng"} == {"mu_part": Mn}
     ctx.check("R4", f"{f.site()}::draw", ok, f"self.{P}[{i}] = sample_mvn_from_precision(Q, mu_part=mu_part)",
-              f"the block's draw is `{U(draws[0]) if draws else None}`")
+              f"the block's draw is `{U(dr)}`")
     st, pd = prior_arm(loop)
     ok = pd is not None and U(pd.targets[0]) == f"self.{P}[{i}]"
     if ok:
         lenv = {n.targets[0].id: n.value for n in st.body if isinstance(n, ast.Assign) and isinstance(n.targets[0], ast.Name)}
-        sd = inline(pd.value.args[1], lenv)
-        ok = NN().n(pd.value.args[0]).is_zero() and NN().n(sd) == NN().n(parse_expr(f"1.0 / np.sqrt({prior_src.format(i=i)})")) and any(isinstance(x, ast.Continue) for x in st.body)
+        sdv = inline(pd.value.args[1], lenv)
+        ok = NN().n(pd.value.args[0]).is_zero() and NN(aux).n(sdv) == NN().n(parse_expr(f"1.0 / np.sqrt({prior_src.format(i=i)})")) and any(isinstance(x, ast.Continue) for x in st.body)
     ctx.check("R4", f"{f.site()}::prior-arm", ok, f"without data: N(0, 1/sqrt({prior_src.format(i=i)})) and continue",
               "the no-data arm does not draw from the prior N(0, prior^-1) with the block's prior precision")
     # ---------- R2 / R3
+    stacks = {k: _stack(R, k) for k in (X, resid, old, I) if k}
+    two_pos = stacks.get(X) is not None
+    R["positions"] = []
     if not two_pos:
-        I = "cidx"
-        oc = one(A, "old_contrib", f)
-        X = one(A, "X", f)
-        ok_old = NN(aux).n(oc) == NN().n(parse_expr(f"X @ self.{P}[{i}]"))
-        resid = one(A, "resid", f)
-        ok_res = NN().n(resid) == NN().n(parse_expr(f"y[{I}] - self.Mu[{I}] + old_contrib"))
+        ctx.need(old is not None and I is not None, f"{f.site()}: the old contribution / row set of the block could not be identified")
+        oc = one(A, old, f)
+        ok_old = NN(aux).n(oc) == NN().n(parse_expr(f"{X} @ self.{P}[{i}]"))
+        rdef = one(A, resid, f)
+        ok_res = NN(aux).n(rdef) == NN().n(parse_expr(f"y[{I}] - self.Mu[{I}] + {old}"))
         ctx.check("R3", f"{f.site()}::residual", ok_res and ok_old, f"resid == y[{I}] - Mu[{I}] + X @ {P}[{i}] (old contribution)",
-                  f"partial residual is `{U(resid)}` with old contribution `{U(oc)}`: it must add back exactly the block's current contribution X @ {P}[{i}]")
+                  f"partial residual is `{U(rdef)}` with old contribution `{U(oc)}`: it must add back exactly the block's current contribution X @ {P}[{i}]")
     else:
-        I = "idx"
-        oks = []
-        for kk in ("1", "2"):
-            ocs = [v for v in A.get(f"old_contrib{kk}", []) if not isinstance(v, ast.List)]
-            rs = [v for v in A.get(f"resid{kk}", []) if not isinstance(v, ast.List)]
-            ctx.need(len(ocs) == 1 and len(rs) == 1, f"{f.site()}: arm {kk} residual/old contribution not found")
-            ok_old = NN(aux).n(ocs[0]) == NN().n(parse_expr(f"X{kk} @ self.{P}[{i}]"))
-            ok_res = NN().n(rs[0]) == NN().n(parse_expr(f"y[idx{kk}] - self.Mu[idx{kk}] + old_contrib{kk}"))
+        ctx.need(old is not None and I is not None and all(stacks.get(k) is not None and len(stacks[k]) == 2 for k in (X, resid, old, I)),
+                 f"{f.site()}: X, resid, old contribution and row set are not all two-element stacks ({ {k: (len(v) if v else None) for k, v in stacks.items()} })")
+        all_ok = True
+        for pos in (0, 1):
+            kk = str(pos + 1)
+            xn, xdef, xph = _data_def(R, stacks[X][pos])
+            rn, rdef, _ = _data_def(R, stacks[resid][pos])
+            on, odef, _ = _data_def(R, stacks[old][pos])
+            ie = stacks[I][pos]
+            ctx.need(isinstance(ie, ast.Name) and xn is not None and on is not None, f"{f.site()}: position {kk}: design / old contribution / row set are not locals")
+            inm = ie.id
+            R["positions"].append({"X": xn, "Xdef": xdef, "idx": inm})
+            penv = {k: v for k, v in aux.items() if k not in (xn, on, inm)}
+            ok_old = NN(penv).n(odef) == NN().n(parse_expr(f"{xn} @ self.{P}[{i}]"))
+            ok_res = NN(penv).n(rdef) == NN().n(parse_expr(f"y[{inm}] - self.Mu[{inm}] + {on}"))
             ctx.check("R3", f"{f.site()}::residual-position-{kk}", ok_res and ok_old, f"resid{kk} == y[idx{kk}] - Mu[idx{kk}] + X{kk} @ {P}[{i}]",
-                      f"partial residual of position {kk} is `{U(rs[0])}` with old contribution `{U(ocs[0])}`")
-            # empty arm consistency
-            emp = [v for v in A.get(f"X{kk}", []) if "reshape(0" in U(v).replace(" ", "")]
-            oks.append(bool(emp))
-        stacks = {"X": "[X1, X2]", "resid": "[resid1, resid2]", "old_contrib": "[old_contrib1, old_contrib2]", "idx": "[idx1, idx2]"}
-        bad = [k for k, w in stacks.items() if U(one(A, k, f)).replace(" ", "") != f"np.concatenate({w})".replace(" ", "")]
-        ctx.check("R3", f"{f.site()}::stack-order", not bad and all(oks), "X, resid, old_contrib and idx are stacked first-position then second-position, in the same order",
-                  f"the two positions are not stacked in one common order for {bad or 'the empty-arm placeholders'}: rows of X would be paired with residuals of other observations")
-        # idx1/idx2 are the rows where m is first / second treatment
-        d1 = U(one(A, "idx1", f)).replace(" ", "")
-        d2 = U(one(A, "idx2", f)).replace(" ", "")
+                      f"partial residual of position {kk} is `{U(rdef)}` with old contribution `{U(odef)}` (rows `{inm}`, design `{xn}`)")
+            all_ok = all_ok and ok_old and ok_res and xph
+        ctx.check("R3", f"{f.site()}::stack-order", all_ok, "X, resid, old_contrib and idx are stacked first-position then second-position, in the same order",
+                  "the two positions are not stacked in one common order (or an empty-position placeholder is missing): rows of X would be paired with residuals of other observations")
+        d1 = U(one(A, R["positions"][0]["idx"], f)).replace(" ", "")
+        d2 = U(one(A, R["positions"][1]["idx"], f)).replace(" ", "")
         ok = d1.startswith(f"np.array(self.dd1_idxs[{i}]") and d2.startswith(f"np.array(self.dd2_idxs[{i}]")
         ctx.check("R3", f"{f.site()}::positions", ok, "idx1 / idx2 are the observations with the treatment in first / second position",
                   f"idx1 / idx2 are `{d1[:40]}` / `{d2[:40]}`")
     # Mu update after the draw
-    upd = [n for n in walk_own(loop) if isinstance(n, ast.AugAssign) and U(n.target.value if isinstance(n.target, ast.Subscript) else n.target) == "self.Mu"]
-    ok = len(upd) == 1 and isinstance(upd[0].op, ast.Add) and U(upd[0].target.slice) == I \
-        and NN(aux).n(upd[0].value) == NN().n(parse_expr(f"X @ self.{P}[{i}] - old_contrib")) and draws and upd[0].lineno > draws[0].lineno
+    upd = R["upd"]
+    ok = len(upd) == 1 and isinstance(upd[0].op, ast.Add) and I is not None and old is not None \
+        and NN(aux).n(upd[0].value) == NN().n(parse_expr(f"{X} @ self.{P}[{i}] - {old}")) and upd[0].lineno > dr.lineno
     same_block = False
     if ok:
         par = enclosing_map(loop)
-        same_block = par.get(upd[0]) is par.get(draws[0])
-    ctx.check("R2", f"{f.site()}::Mu-update", ok and same_block, f"after the draw: Mu[{I}] += X @ {P}[{i}] - old_contrib (same statement list as the draw)",
-              f"the fitted-value cache is not updated by Mu[{I}] += X @ {P}[{i}] - old_contrib right after the draw "
+        same_block = par.get(upd[0]) is par.get(dr)
+    # the rows updated are the rows of the residual
+    if ok and not two_pos:
+        ok = I in _names(one(A, resid, f))
+    ctx.check("R2", f"{f.site()}::Mu-update", ok and same_block, f"after the draw: Mu[I] += X @ {P}[{i}] - old_contrib (same statement list as the draw)",
+              f"the fitted-value cache is not updated by Mu[I] += X @ {P}[{i}] - old_contrib right after the draw "
               f"({'update missing' if not upd else U(upd[0])}): later blocks would condition on stale fitted values")
-    return f, loop, i, A
+    return R
 
 
 def data_arm(v, idxname):
@@ -389,22 +531,26 @@ def design_form(ctx, f, expr, row, i, env):
 def r5(ctx):
     mu, fr = mean_polynomial(ctx, f"{IMPL}._reconstruct_Mu")
     # W block
-    f, loop, i = block_loop(ctx, "_W_step")
-    A = all_assigns(loop)
-    env = {k: v[0] for k, v in A.items() if len(v) == 1 and k in ("tmp1", "tmp2")}
-    X = design_form(ctx, f, one(A, "X", f), "cidx", i, env)
+    RW = vector_roles(ctx, "_W_step")
+    f, loop, i, A = RW["f"], RW["loop"], RW["i"], RW["A"]
+    Xn, rows = RW["X"], RW["I"]
+    ctx.need(rows is not None, f"{f.site()}: the block's row set was not identified")
+    env = {k: v[0] for k, v in A.items() if len(v) == 1 and k not in (Xn, rows, "y", "cline", "dd1", "dd2")}
+    X = design_form(ctx, f, one(A, Xn, f), rows, i, env)
     want = deriv(mu, ("G", "W", "cline"))
     ctx.check("R5", f"{f.site()}::X=dMu/dW", X == want, "X == V2[d1]*V2[d2] + V1[d1] + V1[d2] == dMu/dW[c]",
               f"the design matrix of the W block `{X}` is not the partial derivative `{want}` of the mean in _reconstruct_Mu")
-    cdef = U(one(A, "cidx", f)).replace(" ", "")
+    cdef = U(one(A, rows, f)).replace(" ", "")
     ctx.check("R5", f"{f.site()}::rows", cdef.startswith(f"np.array(self.cline_idxs[{i}]"), "rows = observations of sample c", f"row set is `{cdef[:50]}`")
     for name, P in (("_V2_step", "V2"), ("_V1_step", "V1")):
-        f, loop, i = block_loop(ctx, name)
-        A = all_assigns(loop)
-        for kk, own, other in (("1", "dd1", "dd2"), ("2", "dd2", "dd1")):
-            xs = [v for v in A.get(f"X{kk}", []) if "reshape(0" not in U(v).replace(" ", "")]
-            ctx.need(len(xs) == 1, f"{f.site()}: X{kk} not found")
-            X = design_form(ctx, f, xs[0], f"idx{kk}", i, {})
+        RV = vector_roles(ctx, name)
+        f, loop, i, A = RV["f"], RV["loop"], RV["i"], RV["A"]
+        sx, si = _stack(RV, RV["X"]), (_stack(RV, RV["I"]) if RV["I"] else None)
+        ctx.need(sx is not None and si is not None and len(sx) == 2 and len(si) == 2 and all(isinstance(e, ast.Name) for e in si), f"{f.site()}: the two-position stacks of the design matrix / row set were not found")
+        for pos, (kk, own, other) in enumerate((("1", "dd1", "dd2"), ("2", "dd2", "dd1"))):
+            xn, xdef, _ = _data_def(RV, sx[pos])
+            penv = {k: v[0] for k, v in A.items() if len(v) == 1 and k not in (si[pos].id, "y", "cline", "dd1", "dd2")}
+            X = design_form(ctx, f, xdef, si[pos].id, i, penv)
             want = deriv(mu, ("G", P, own))
             ctx.check("R5", f"{f.site()}::X{kk}=dMu/d{P}[position {kk}]", X == want, f"X{kk} == dMu/d{P}[d{kk}] == {want}",
                       f"the design rows for position {kk} `{X}` are not the partial derivative `{want}` of the mean w.r.t. {P} at that position")
